@@ -69,6 +69,14 @@ Definition tparen (b : bool) (ts : list dtok) : list dtok := if b then T "(" :: 
 Definition vparen (b vendor : bool) (ts : list dtok) : list dtok :=
   if b then (if vendor then V "(" :: ts ++ [V ")"] else T "(" :: ts ++ [T ")"]) else ts.
 
+(* _operand_sql: an operand that is a predicate is wrapped *)
+Definition topnd (sl : oslot) (t : term) (ts : list dtok) : list dtok := tparen (operand_parens sl (okind_of t)) ts.
+(* parentheses of a minus operand: [static] part decided by the operand's constructor; the [dyn] part ("the operand's text
+   starts with a minus sign") depends on the rendered text, hence - for exotic quote strings - on the quotes: these guard
+   parentheses are emitted as layout tokens that [erase] drops *)
+Definition mparen (static dyn : bool) (ts : list dtok) : list dtok :=
+  if static then T "(" :: ts ++ [T ")"] else if dyn then V "(" :: ts ++ [V ")"] else ts.
+
 (* format_alias_sql *)
 Definition falias (r : role) (og : origin) (ts : list dtok) (alias : option string) (qc aqc : option string) (kw : bool)
   : list dtok :=
@@ -113,31 +121,41 @@ Fixpoint ttoks (c : ctx) (og : origin) (t : term) {struct t} : res (list dtok) :
   | TValRaw txt alias => Ok (alias_toks c og (q c) [T txt] alias)
   | TLit raw alias => Ok (alias_toks c og (q c) [T raw] alias)
   | TParam txt => Ok [T txt]
-  | TNeg t' => s <- ttoks c og t' ;; Ok (T "-" :: s)
+  | TNeg t' =>
+      s0 <- ttoks (opc SNeg t' c) og t' ;;
+      let s := topnd SNeg t' s0 in
+      Ok (T "-" :: mparen (match t' with TArith _ _ _ _ => neg_parens_arith | TNeg _ => neg_parens_neg | _ => false end)
+                          (neg_parens_minus && starts_minus (tflat s)) s)
   | TArith op l r alias =>
       let c' := set_wa c false in
-      a <- ttoks c' og l ;; b <- ttoks c' og r ;;
-      let s := tparen (left_needs_parens op (top_op l)) a ++ T (aop_text op) :: tparen (right_needs_parens op (top_op r)) b in
+      a0 <- ttoks (opc SArithL l c') og l ;; b0 <- ttoks (opc SArithR r c') og r ;;
+      let a := topnd SArithL l a0 in
+      let b := topnd SArithR r b0 in
+      let s := tparen (left_needs_parens op (top_op l)) a ++ T (aop_text op)
+               :: mparen (right_needs_parens op (top_op r))
+                         (sub_parens_minus && (match op with OSub => true | _ => false end) && starts_minus (tflat b)) b in
       Ok (if wa c then alias_toks c og (q c) s alias else s)
   | TBasic cm l r alias =>
       let c' := set_wa c false in
-      a <- ttoks c' og l ;; b <- ttoks c' og r ;;
-      let s := a ++ T (cmp_text cm) :: b in
+      a0 <- ttoks (opc SCmpL l c') og l ;; b0 <- ttoks (opc SCmpR r c') og r ;;
+      let s := topnd SCmpL l a0 ++ T (cmp_text cm) :: topnd SCmpR r b0 in
       Ok (if wa c then falias RAliasC og s alias None (aq c) (askw c) else s)
   | TCplx bo l r alias =>
       a <- ttoks (set_subc c (needs_brackets_x bo (top_bop l))) og l ;;
       b <- ttoks (set_subc c (needs_brackets_x bo (top_bop r))) og r ;;
       Ok (tparen (subc c) (a ++ T (" " ++ bop_text_x bo ++ " ") :: b))
   | TIn t' cont negated alias =>
-      a <- ttoks (set_subq c false) og t' ;; b <- ttoks (set_subq c true) og cont ;;
-      Ok (alias_toks c og (q c) (a ++ T (" " ++ (if negated then "NOT " else "") ++ "IN ") :: b) alias)
+      a <- ttoks (opc SInTerm t' (set_subq c false)) og t' ;; b <- ttoks (set_subq c true) og cont ;;
+      Ok (alias_toks c og (q c) (topnd SInTerm t' a ++ T (" " ++ (if negated then "NOT " else "") ++ "IN ") :: b) alias)
   | TBetween t' lo hi alias =>
-      a <- ttoks c og t' ;; b <- ttoks c og lo ;; d <- ttoks c og hi ;;
-      Ok (alias_toks c og (q c) (a ++ T " BETWEEN " :: b ++ T " AND " :: d) alias)
+      a <- ttoks (opc SBetTerm t' c) og t' ;; b <- ttoks (opc SBetLo lo c) og lo ;; d <- ttoks (opc SBetHi hi c) og hi ;;
+      Ok (alias_toks c og (q c) (topnd SBetTerm t' a ++ T " BETWEEN " :: topnd SBetLo lo b ++ T " AND " :: topnd SBetHi hi d) alias)
   | TBitAnd t' v alias =>
       a <- ttoks c og t' ;; Ok (alias_toks c og (q c) (T "(" :: a ++ [T (" & " ++ v ++ ")")]) alias)
-  | TIsNull t' alias => a <- ttoks (set_wa c false) og t' ;; Ok (alias_toks c og (q c) (a ++ [T " IS NULL"]) alias)
-  | TNotNull t' alias => a <- ttoks (set_wa c false) og t' ;; Ok (alias_toks c og (q c) (a ++ [T " IS NOT NULL"]) alias)
+  | TIsNull t' alias =>
+      a <- ttoks (opc SIsNull t' (set_wa c false)) og t' ;; Ok (alias_toks c og (q c) (topnd SIsNull t' a ++ [T " IS NULL"]) alias)
+  | TNotNull t' alias =>
+      a <- ttoks (opc SNotNull t' (set_wa c false)) og t' ;; Ok (alias_toks c og (q c) (topnd SNotNull t' a ++ [T " IS NOT NULL"]) alias)
   | TNot t' alias => a <- ttoks (set_subc c true) og t' ;; Ok (alias_toks (set_subc c true) og (q c) (T "NOT " :: a) alias)
   | TAll t' alias => a <- ttoks c og t' ;; Ok (alias_toks c og (q c) (a ++ [T " ALL"]) alias)
   | TEmpty => Err "TypeError"
@@ -287,7 +305,8 @@ Definition gitem_toks (kk : kctx) (og : origin) (srcs : list tref) (cx base : ct
   : res (list dtok) :=
   a <- (match (if gba then alias_ref selects y else None) with
         | Some a => Ok [(false, AId RAlias (or_ostr (aq base) (q base)) a og)]
-        | None => it kk og srcs cx y end) ;;
+        (* _group_sql consumes groupby_alias as a named parameter: a sub-query below it sees the default *)
+        | None => it (mk_k (kc kk) (k_abs kk) true) og srcs cx y end) ;;
   Ok (mark_group a).
 Definition group_toks (kk : kctx) (og : origin) (srcs : list tref) (cx base : ctx) (gba : bool) (selects groupbys : list item)
   : res (list dtok) :=
@@ -329,9 +348,9 @@ Definition qsel_toks (kin : kctx) (og0 : origin) (walias subquery pv : bool) (al
     fr <- rmapM (from_toks k og (ci true true)) (zip_names from fnames) ;;
     js <- rmapM (join_toks k kk og srcs (ci true true) (ci false true)) (zip_names joins jnames) ;;
     wh <- where_toks " WHERE " kk og srcs (ci false true) wheres ;;
-    gb <- group_toks kk og srcs (ci false false) base (k_gba k) selects groupbys ;;
-    hv <- where_toks " HAVING " kk og srcs (ci false false) havings ;;
-    ob <- order_toks kk og srcs (ci false false) base selects orderbys ;;
+    gb <- group_toks kk og srcs (ci false clause_subq_groupby) base (k_gba k) selects groupbys ;;
+    hv <- where_toks " HAVING " kk og srcs (ci false clause_subq_having) havings ;;
+    ob <- order_toks kk og srcs (ci false clause_subq_orderby) base selects orderbys ;;
     let body := w ++ T "SELECT " :: (if distinct then [T "DISTINCT "] else []) ++ tjoin "," sel
                 ++ (match fr with [] => [] | _ => T " FROM " :: tjoin "," fr end)
                 ++ (match js with [] => [] | _ => T " " :: tjoin " " js end)
@@ -383,7 +402,8 @@ Definition qupd_toks (kin : kctx) (og0 : origin) (c0 : cls) (tbl : tref) (sets :
   | _ =>
     js <- rmapM (join_toks k kk og srcs cs (set_subq (set_wa base false) true)) (zip_names joins jnames) ;;
     ss <- rmapM (fun fv : term * item =>
-                   a <- ttoks (set_wn base false) og (fst fv) ;; b <- it kk og srcs base (snd fv) ;;
+                   a <- ttoks (set_wn base false) og (fst fv) ;;
+                   b <- it kk og srcs (if clause_subq_setvalue then set_subq base true else base) (snd fv) ;;
                    Ok (a ++ T "=" :: b)) sets ;;
     fr <- rmapM (from_toks k og cs) (zip_names from fnames) ;;
     wh <- where_toks " WHERE " kk og srcs (set_subq base true) wheres ;;
